@@ -8,6 +8,7 @@ import (
 	"reflect"
 	"sort"
 	"strings"
+	"unicode/utf8"
 
 	"golang.org/x/tools/go/ssa"
 )
@@ -35,7 +36,7 @@ func constsOf(c *Ctx, rel string, named *types.Named) map[string]constant.Value 
 func runC14(c *Ctx, tier string) {
 	r := NewReport("C14", "other", tier, c)
 	r.Explanation = "Structural conditions for a faithful, reversible JSON form, decided from the code: (1) labels: the decision table of LintStatus.String evaluated on every declared status constant and on out-of-range values yields the published label per constant (reserved, NA, NE, pass, info, warn, error, fatal), non-empty and pairwise distinct, and \"\" otherwise; (2) label-table: the initialiser of StatusLabelToLintStatus has exactly one entry X.String() → X per declared constant; (3) codec: MarshalJSON encodes String(); UnmarshalJSON stores the looked-up status when the label is found and returns a non-nil error otherwise (decision table); the method sets make encoding/json use them; (4) tags: every exported field of ResultSet, LintResult, LintMetadata and Profile that must round-trip has a JSON key that is not \"-\" and is unique within its struct (embedded fields included); LintResult.LintMetadata and the two dates are \"-\"; function-typed fields of the three lint structs are \"-\" (otherwise Encode fails and the listing loses the line); (5) listing: the decision table of Registry.WriteJSON (loops unrolled twice) encodes each element of certificate, CRL and OCSP Lints() exactly once and nothing else; (6) LintSource decodes through its own UnmarshalJSON, whose accepted set is every declared source. Does not decide the behaviour of encoding/json itself (U+FFFD substitution, escaping, number formatting)."
-	r.Rule("labels; label-table; codec; tags; listing; source-codec; codec-census; round-trip-total: no member of ResultSet / LintResult has a decoder that rejects values its encoder writes")
+	r.Rule("labels; label-table; codec; tags; listing; source-codec; codec-census; metadata-utf8; round-trip-total: no member of ResultSet / LintResult has a decoder that rejects values its encoder writes")
 	r.Trusted = []string{"encoding/json honours MarshalJSON/UnmarshalJSON methods and struct tags as documented", "go/ssa"}
 
 	c14Labelling(c, r)
@@ -44,6 +45,7 @@ func runC14(c *Ctx, tier string) {
 	c14Tags(c, r)
 	c14Listing(c, r)
 	sourceSwitches(c, r, "source-codec", true)
+	metadataUTF8(c, r, BuildCensus(c))
 	r.Finish()
 }
 
@@ -606,4 +608,22 @@ func countPrefix(count map[string]int, prefix string) int {
 		}
 	}
 	return n
+}
+
+// metadataUTF8: every constant string of a registration's metadata (Name,
+// Description, Citation) is valid UTF-8. encoding/json replaces each invalid byte
+// by U+FFFD, so a listing line with such a string does not decode to the
+// registered lint's metadata (a "\xa7" escape is the single byte 0xA7, not §).
+func metadataUTF8(c *Ctx, r *Report, cs *Census) {
+	n := 0
+	for _, reg := range cs.Regs {
+		if reg.Err != "" {
+			continue
+		}
+		for what, v := range map[string]string{"Name": reg.Name, "Description": reg.Desc, "Citation": reg.Citation} {
+			n++
+			r.Check(utf8.ValidString(v), "metadata-utf8", reg.ID()+"|"+what, reg.Call.Pos(), "", fmt.Sprintf("%s of %s is not valid UTF-8 (%q): the JSON listing writes U+FFFD for the offending bytes, so the line no longer decodes to the lint's metadata", what, reg.ID(), v))
+		}
+	}
+	r.Floor("metadata strings checked for UTF-8 validity", 1000, n)
 }
